@@ -27,24 +27,31 @@ def cfg_text(c):
     return "\n".join(lines) + "\n"
 
 
-def run_builder(c, name, simulate=None, depth=None, seed=None, workers=8, timeout=900, module="Gen"):
-    """Returns (recipes, TLCResult).  Recipes are de-duplicated (a printing action may be evaluated twice)."""
+def run_builder(c, name, simulate=None, depth=None, seed=None, workers=8, timeout=900, module="Gen",
+                cap=None, rnd=None, main_calls=False):
+    """Returns (recipes, TLCResult).  Recipes are de-duplicated (a printing action may be evaluated twice).
+    cap/rnd: keep a seeded sample of at most cap recipes; main_calls: keep only programs whose main routine
+    contains a Call (both applied on the raw lines, before the expensive JSON parsing).
+    res.nrecipes is the number of distinct finished programs TLC produced."""
     wd = tlc.workdir("gen_" + name)
     res = tlc.run_tlc(module, cfg_text(c), wd, workers=workers, timeout=timeout, simulate=simulate,
                       depth=depth, seed=seed, xss="64m")
-    seen = set()
+    lines = sorted(set(line for line in res.out.splitlines() if line.startswith('"R|')))
+    res.nrecipes = len(lines)
+    if main_calls:
+        def calls(line):
+            k = line.find('\\"nvars\\"')
+            return '\\"k\\":\\"Call\\"' in (line[:k] if k > 0 else line)
+        lines = [ln for ln in lines if calls(ln)]
+    if cap is not None and len(lines) > cap:
+        lines = (rnd or __import__("random").Random(0)).sample(lines, cap)
     out = []
-    for line in res.out.splitlines():
-        if line.startswith('"R|'):
-            try:
-                s = json.loads(line)
-            except ValueError:
-                continue
-            body = s[2:]
-            if body in seen:
-                continue
-            seen.add(body)
-            out.append(json.loads(body))
+    for line in lines:
+        try:
+            out.append(json.loads(json.loads(line)[2:]))
+        except ValueError:
+            continue
+    res.out = res.out[-20000:]
     return out, res
 
 
